@@ -690,6 +690,8 @@ RULES = [
     Rule("C06.T8", rule_T8, floor=11, doc="path tokenization structure and step delimiters"),
     Rule("C06.T9", rule_T9, floor=3, doc="direction tables"),
     Rule("C06.T10", rule_T10, floor=5, doc="coordinate / target tokenizers"),
+    Rule("C06.T12", lambda ctx: __import__("sa.rules.c13", fromlist=["x"]).rule_V4(ctx), floor=2,
+         doc="the Forks step size takes its step boundaries from get_solution_forking_points: strictly increasing fork indices, endpoints once (C13.V4 re-judged)"),
     Rule("C06.T11", rule_T11, floor=8, doc="adjacency pipeline and permuters"),
     Rule("C06.E12", lambda ctx: __import__("sa.mypyx", fromlist=["x"]).cross_check(ctx, [f"{MT}.MazeTokenizerModular.to_tokens"], "C06.E12"), floor=1,
          doc="thorough: call graph over-approximates mypy's type-resolved edges on the to_tokens closure", tier="thorough"),
